@@ -5,6 +5,7 @@ import (
 	"go/constant"
 	"go/token"
 	"go/types"
+	"regexp"
 	"sort"
 	"strings"
 
@@ -219,8 +220,19 @@ func typeQualifier(p *types.Package) string {
 	return p.Name()
 }
 
+var byteRe = regexp.MustCompile(`\bbyte\b`)
+var runeRe = regexp.MustCompile(`\brune\b`)
+
+// typeStr is the canonical textual key of a type (aliases byte/rune normalised).
 func typeStr(t types.Type) string {
-	return types.TypeString(t, typeQualifier)
+	s := types.TypeString(t, typeQualifier)
+	if strings.Contains(s, "byte") {
+		s = byteRe.ReplaceAllString(s, "uint8")
+	}
+	if strings.Contains(s, "rune") {
+		s = runeRe.ReplaceAllString(s, "int32")
+	}
+	return s
 }
 
 // ---------- sorts ----------
